@@ -84,6 +84,18 @@ type hist struct {
 	texts     map[string]bool // user supplied texts (lock messages, ...)
 	stream      string
 	mon         *monitors
+	// silent: operations are run and monitored but no longer written to the
+	// trace (fault phase at the end of a history: the state "writer dead,
+	// still a member" does not exist in Model/Signal.v)
+	silent bool
+	deadW  map[*cl]bool // clients whose writer was killed
+}
+
+func (h *hist) op(obs string, op string, args ...interface{}) {
+	if h.silent {
+		return
+	}
+	h.t.Op(obs, op, args...)
 }
 
 var galeneTexts = map[string]bool{
@@ -110,7 +122,7 @@ func newHist(t *tr.Trace, r *tr.Rand, stream string) *hist {
 	}
 	t.History("sig", stream)
 	h := &hist{t: t, r: r, w: w, tokReal: map[string]string{}, tokCanon: map[string]string{},
-		knownIDs: map[string]bool{}, texts: map[string]bool{}, stream: stream}
+		knownIDs: map[string]bool{}, texts: map[string]bool{}, stream: stream, deadW: map[*cl]bool{}}
 	h.mon = newMonitors(h)
 	return h
 }
@@ -160,7 +172,7 @@ func (h *hist) mkgroup(s sigdrv.GroupSpec) {
 	if s.WildcardUser != nil {
 		args = append(args, user("*", *s.WildcardUser))
 	}
-	h.t.Op("-", "mkgroup", args...)
+	h.op("-", "mkgroup", args...)
 }
 
 func (h *hist) client(id string) *cl {
@@ -170,7 +182,7 @@ func (h *hist) client(id string) *cl {
 	if id != "" {
 		h.knownIDs[id] = true
 	}
-	h.t.Op("-", "client", c.h, dash(id))
+	h.op("-", "client", c.h, dash(id))
 	return c
 }
 
@@ -535,15 +547,15 @@ func (h *hist) msg(c *cl, m *smsg) sendResult {
 	sr := sendResult{res: res, msgs: ms, perms: before, grp: grp}
 	switch {
 	case res.Panic != nil:
-		h.t.Op("PANIC", "msg", args...)
+		h.op("PANIC", "msg", args...)
 		h.panicked(fmt.Sprintf("message %s/%s by client %d", m.Type, m.Kind, c.h), res.Panic)
 		sr.auth = "panic"
 	case !res.Ran:
-		h.t.Op("dead", "msg", args...)
+		h.op("dead", "msg", args...)
 		sr.auth = "dead"
 	default:
 		sr.auth = authClass(res, ms)
-		h.t.Op(sr.auth+" "+res.Class+" "+h.stateOf(c), "msg", args...)
+		h.op(sr.auth+" "+res.Class+" "+h.stateOf(c), "msg", args...)
 	}
 	h.prune()
 	return sr
@@ -554,12 +566,12 @@ func (h *hist) pump(c *cl) sigdrv.Result {
 	h.take(c)
 	switch {
 	case res.Panic != nil:
-		h.t.Op("PANIC", "pump", c.h)
+		h.op("PANIC", "pump", c.h)
 		h.panicked(fmt.Sprintf("action queue of client %d", c.h), res.Panic)
 	case !res.Ran:
-		h.t.Op("dead", "pump", c.h)
+		h.op("dead", "pump", c.h)
 	default:
-		h.t.Op(res.Class+" "+h.stateOf(c), "pump", c.h)
+		h.op(res.Class+" "+h.stateOf(c), "pump", c.h)
 	}
 	h.mon.onPump(c)
 	h.prune()
@@ -569,7 +581,7 @@ func (h *hist) pump(c *cl) sigdrv.Result {
 func (h *hist) disc(c *cl) {
 	c.c.Disconnect()
 	h.take(c)
-	h.t.Op("-", "disc", c.h)
+	h.op("-", "disc", c.h)
 	h.prune()
 }
 
@@ -594,7 +606,7 @@ func (h *hist) quiesce() {
 			break
 		}
 	}
-	h.t.Op("-", "quiesce")
+	h.op("-", "quiesce")
 }
 
 func (h *hist) drain(c *cl) {
@@ -605,7 +617,7 @@ func (h *hist) drain(c *cl) {
 		obs = strings.Join(c.buf, " ")
 	}
 	c.buf = nil
-	h.t.Op(obs, "drain", c.h)
+	h.op(obs, "drain", c.h)
 }
 
 func (h *hist) drainAll() {
@@ -628,7 +640,7 @@ func (h *hist) state(g string) {
 	if gr == nil {
 		// the group object is created on first use; the model has it from
 		// mkgroup on
-		h.t.Op("locked=0 members=- rec=0 tokens=-", "state", g)
+		h.op("locked=0 members=- rec=0 tokens=-", "state", g)
 		return
 	}
 	var ms []int
@@ -681,7 +693,7 @@ func (h *hist) state(g string) {
 	if len(toks) > 0 {
 		tS = strings.Join(toks, ",")
 	}
-	h.t.Op(fmt.Sprintf("locked=%s members=%s rec=%s tokens=%s", tr.B(h.w.Locked(g)), msS, tr.B(rec), tS), "state", g)
+	h.op(fmt.Sprintf("locked=%s members=%s rec=%s tokens=%s", tr.B(h.w.Locked(g)), msS, tr.B(rec), tS), "state", g)
 }
 
 func (h *hist) ups(c *cl) {
@@ -690,7 +702,7 @@ func (h *hist) ups(c *cl) {
 	if len(ids) > 0 {
 		obs = strings.Join(ids, ",")
 	}
-	h.t.Op(obs, "ups", c.h)
+	h.op(obs, "ups", c.h)
 }
 
 // prune drops the clients whose connection has ended from the live list.
